@@ -8,8 +8,11 @@ from . import tlc
 
 VERIF = tlc.VERIF
 REPO = os.environ.get("FA_REPO", "/repo")
-EVIDENCE = os.path.join(VERIF, "evidence")
-REPLAYS = os.path.join(VERIF, "replays")
+# FA_OUT_DIR: where a run against a scratch copy (tools/try_seed.sh) writes evidence and replays, so that
+# /verif/evidence only ever holds what a check wrote when run against /repo itself
+_OUT = os.environ.get("FA_OUT_DIR", VERIF)
+EVIDENCE = os.path.join(_OUT, "evidence")
+REPLAYS = os.path.join(_OUT, "replays")
 KNOWN = os.path.join(VERIF, "known_findings.json")
 
 
